@@ -84,6 +84,7 @@ def step(self, op):
             else:
                 self.report('cachemodel', 'cache_differs_from_model', det)
                 self.diverged = 'cache differs from model'
+    if self.session is not None and not self.diverged: self._sync_dbstate()
     self.c('outcome.' + out)
     return out
 
@@ -213,6 +214,7 @@ def _modify(self, op):
     self.last_model ={'cascade_cycle': bool(m2.cascade_revisit), 'refusal': refuse.kind if refuse else None}
     before = self.snapshot() if self.snapshots else None
     mark = self.rec.mark()
+    self._sync_dbstate()      # the lookups of the argument objects may have flushed
 
     # 3. the real call
     exc = None
@@ -296,6 +298,16 @@ def _modify(self, op):
         else: self.c('unexpected_error.%s.%s' % (kind, name))
         return 'raised_conflict' if dup else 'raised_unexpected'
     return 'raised_expected'
+
+
+def _sync_dbstate(self):
+    """if the session has nothing pending, an (implicit) flush has written everything: the database holds the
+    session's current state (used only to recognise the DELETE-BEFORE-REFERRER-WRITTEN mechanism)"""
+    try:
+        c = self.cache()
+        if c is not None and c.is_alive and not c.modified and not any(o is not None for o in c.objects_to_save):
+            if not self.unflushed or True: self.dbstate = self.working.copy()
+    except Exception: pass
 
 
 def _note_seed_reassign(self, op):
@@ -698,6 +710,7 @@ def install():
     Engine._reset_after_rollback = _reset_after_rollback
     Engine._fk_cycle = _fk_cycle
     Engine._note_seed_reassign = _note_seed_reassign
+    Engine._sync_dbstate = _sync_dbstate
     Engine.unflushed = set()
     Engine.last_model = {}
     Engine.pending_taint_stop = False
